@@ -1,2 +1,22 @@
 pub mod c02;
 pub mod c07;
+pub mod c12;
+pub mod c13;
+pub mod c15;
+
+use crate::monitor::{Config, Local};
+use serde_json::Value;
+
+pub type RunFn = fn(&Config) -> i32;
+pub type ReplayFn = fn(&Config, &Value) -> Local;
+
+pub fn dispatch(prop: &str) -> Option<(RunFn, ReplayFn)> {
+    Some(match prop {
+        "C02" => (c02::run, c02::replay),
+        "C07" => (c07::run, c07::replay),
+        "C12" => (c12::run, c12::replay),
+        "C13" => (c13::run, c13::replay),
+        "C15" => (c15::run, c15::replay),
+        _ => return None,
+    })
+}
